@@ -25,8 +25,14 @@ pub fn cfg_for(family: &str) -> GenCfg {
             c.string_rate = 0.4;
         }
         "names" => {
-            c.shadow_rate = 0.4;
-            c.func_rate = 0.35;
+            c.shadow_rate = 0.3;
+            c.func_rate = 0.45;
+            c.name_pool = true;
+            c.stray_rate = 0.04;
+            c.loop_rate = 0.1;
+            c.float_rate = 0.05;
+            c.string_rate = 0.05;
+            c.array_rate = 0.05;
         }
         _ => {}
     }
@@ -268,5 +274,93 @@ pub fn gen_corpus(args: &Args) {
         writeln!(f, "{}", rec).unwrap();
         writeln!(src, "{}", json!({"id":id,"text":text})).unwrap();
         id += 1;
+    }
+}
+
+// ---------------------------------------------------------------------------
+// C06 (operators): every operator on every pair of value exemplars of every type
+// ---------------------------------------------------------------------------
+use crate::ast::{b, call, id, infix, Expr};
+
+pub fn exemplars() -> Vec<(&'static str, Expr)> {
+    let neg = |e: Expr| Expr::Prefix("-", b(e));
+    vec![
+        ("null", Expr::If { c: b(Expr::Bool(false)), th: vec![Stmt::Expr(Expr::Int(1))], el: None }),
+        ("bool", Expr::Bool(true)),
+        ("bool", Expr::Bool(false)),
+        ("int", Expr::Int(0)),
+        ("int", Expr::Int(7)),
+        ("int", neg(Expr::Int(3))),
+        ("int", Expr::Int(1)),
+        ("float", Expr::Float { m: 0, e: 0 }),
+        ("float", Expr::Float { m: 3, e: 1 }),
+        ("float", neg(Expr::Float { m: 9, e: 2 })),
+        ("float", Expr::Float { m: 1, e: 0 }),
+        ("float", Expr::Float { m: 7, e: 0 }),
+        ("str", Expr::Str(String::new())),
+        ("str", Expr::Str("a".into())),
+        ("str", Expr::Str("ab".into())),
+        ("str", Expr::Str("b".into())),
+        ("str", Expr::Str("B".into())),
+        ("str", Expr::Str("é".into())),
+        ("str", Expr::Str("z".into())),
+        ("str", Expr::Str("😀".into())),
+        ("arr", Expr::Array(vec![])),
+        ("arr", Expr::Array(vec![Expr::Int(1)])),
+        // (a function literal can not stand to the left of an operator: the grammar rejects it)
+        ("fn", id("g2")),
+        ("fn", id("g")),
+    ]
+}
+
+pub const ALL_OPS: [&str; 13] = ["+", "-", "*", "/", "%", "<", "<=", ">", ">=", "==", "!=", "&&", "||"];
+
+pub fn gen_ops(args: &Args) {
+    let out = args.get("out", "/dev/stdout");
+    let shard = args.num("shard", 0);
+    let shards = args.num("shards", 1);
+    let first_id = args.num("first-id", 1);
+    let mut f = std::fs::File::create(&out).expect("create out");
+    let mut src = std::fs::File::create(format!("{out}.src")).expect("create src");
+    let mut w = Worker::spawn(Duration::from_secs(10));
+    let opts = RunOpts { budget: Some(50_000), ..Default::default() };
+    let ex = exemplars();
+    let g1 = Stmt::Expr(Expr::Func { name: "g".into(), params: vec![], body: vec![Stmt::Expr(Expr::Int(2))] });
+    let g2 = Stmt::Expr(Expr::Func { name: "g2".into(), params: vec![], body: vec![Stmt::Expr(Expr::Int(1))] });
+    let mut id_ = first_id;
+    let mut k = 0u64;
+    for (_, a) in &ex {
+        for (_, bb) in &ex {
+            for op in ALL_OPS {
+                for form in 0..3 {
+                    k += 1;
+                    if k % shards != shard {
+                        continue;
+                    }
+                    // form 0: a op b ; form 1: variable op b inside a function ; form 2: a op variable
+                    let prog: Vec<Stmt> = match form {
+                        0 => vec![g1.clone(), g2.clone(), Stmt::Expr(infix(op, a.clone(), bb.clone()))],
+                        1 => vec![
+                            g1.clone(),
+                            g2.clone(),
+                            Stmt::Expr(Expr::Func { name: "h".into(), params: vec!["x".into()],
+                                body: vec![Stmt::Expr(infix(op, id("x"), bb.clone()))] }),
+                            Stmt::Expr(call("h", vec![a.clone()])),
+                        ],
+                        _ => vec![
+                            g1.clone(),
+                            g2.clone(),
+                            Stmt::Expr(Expr::Func { name: "h".into(), params: vec!["x".into()],
+                                body: vec![Stmt::Expr(infix(op, a.clone(), id("x")))] }),
+                            Stmt::Expr(call("h", vec![bb.clone()])),
+                        ],
+                    };
+                    let (rec, text) = record(id_, "ops", &prog, &mut w, &opts);
+                    writeln!(f, "{}", rec).unwrap();
+                    writeln!(src, "{}", json!({"id":id_,"text":text})).unwrap();
+                    id_ += 1;
+                }
+            }
+        }
     }
 }
